@@ -142,6 +142,14 @@ Plan gen_pdocfg(Rng &r, bool thorough) {
         else if (c < 19) p.ops.push_back(Op("w", {tp, ch, r.range(1, 8), link()}));
         else p.ops.push_back(Op("w", {1, ch, r.range(11, 12), 0}));   // inhibit/event time writes: verdict not constrained; value 0 keeps the activation probes free of timing
     }
+    // a whole re-mapping with e entries of one width, then count := e (or a neighbour): sums of 8..256 bits, i.e. below, at and far above the 64 bit limit
+    if (r.chance(1, 3)) {
+        int64_t tp = r.below(2), ch = r.below(2); int64_t base = (tp ? 0x40000180 : 0x200) + 0x100 * ch + 1; int e = (int)r.range(2, 8); uint32_t wbits = r.pick<uint32_t>({8, 16, 32, 32});
+        static const uint32_t t8[] = {0x210001, 0x210005, 0x210007, 0x210009}, t16[] = {0x210002, 0x210006}, t32[] = {0x210003, 0x210004, 0x210008};
+        p.ops.push_back(Op("w", {tp, ch, 9, base | 0x80000000ll})); p.ops.push_back(Op("w", {tp, ch, 0, 0}));
+        for (int i = 1; i <= e; i++) { uint32_t t = wbits == 8 ? t8[r.below(4)] : wbits == 16 ? t16[r.below(2)] : t32[r.below(3)]; p.ops.push_back(Op("w", {tp, ch, i, (int64_t)(t << 8 | wbits)})); }
+        p.ops.push_back(Op("w", {tp, ch, 0, r.chance(3, 4) ? e : (int64_t)r.range(1, 8)})); p.ops.push_back(Op("w", {tp, ch, 9, base})); p.ops.push_back(Op("nmt", {1}));
+    }
     // the canonical re-mapping sequence, somewhere at the end (must always succeed)
     if (r.chance(1, 2)) { int64_t tp = r.below(2), ch = r.below(2); int64_t base = (tp ? 0x40000180 : 0x200) + 0x100 * ch + 1; p.ops.push_back(Op("w", {tp, ch, 9, base | 0x80000000ll})); p.ops.push_back(Op("w", {tp, ch, 0, 0})); p.ops.push_back(Op("w", {tp, ch, 1, 0x21000108})); p.ops.push_back(Op("w", {tp, ch, 2, 0x21000320})); p.ops.push_back(Op("w", {tp, ch, 0, 2})); p.ops.push_back(Op("w", {tp, ch, 10, 254})); p.ops.push_back(Op("w", {tp, ch, 9, base})); p.ops.push_back(Op("nmt", {1})); }
     return p;
